@@ -82,6 +82,22 @@ def run(repo, rep):
     from . import c05 as _c05
 
     rep.run_borrowed(_c05, {"C05-g": "C13-ae"}, repo)
+    rep.clause("C13-af", "Operation.clone copies every member and runs validating setters after the members they read (a clone with AwayZero rounding asserts otherwise) [rule shared with C08-p]")
+    from .shared import clone_completeness as _cc
+
+    if _cc(repo, rep, "C13-af") < 20:
+        raise AnalysisError("Operation.clone: fewer than 20 members checked")
+    rep.clause("C13-ag", "positional arguments spelled like a parameter of the callee sit at that parameter's position in the compiler driver (memory tensors handed to the serialiser)")
+    from .shared import swapped_argument_lint as _sal
+
+    if _sal(repo, rep, "C13-ag", ["compiler_driver", "npu_serialisation"]) < 3:
+        raise AnalysisError("compiler_driver: fewer than 3 calls with parameter-named arguments")
+    rep.clause("C13-ah", "a CPU pass is moved behind a later pass only if that pass reads none of its outputs: the dependency test looks at every feature-map operand of the later pass (ifm and ifm2)")
+    rule_cpu_pass_move(repo, rep)
+    rep.clause("C13-ai", "no loop variable is read after its loop in pass packing / subgraph extraction (a CPU operator packed into an NPU pass never went through the graph optimiser: IndexError in the scheduler) [rule shared with C16-j]")
+    from .shared import stale_loop_variable_lint as _slv
+
+    _slv(repo, rep, "C13-ai", ["pass_packing", "extract_npu_subgraphs"])
 
 
 # ------------------------------------------------------------------ a
@@ -2123,3 +2139,17 @@ def rule_bias_range_agreement(repo, rep, rule="C13-ad"):
               f"{[(v_, 'accepted' if a_ else 'rejected') for v_, a_ in wrong]}: the test counts the bits of the magnitude; a bias in [2^39, 2^40) is placed on the NPU and `encode_bias` asserts "
               "(under python -O the record holds bias - 2^40)")
     rep.floor(rule, 1)
+
+
+def rule_cpu_pass_move(repo, rep):
+    pp = repo.mod("pass_packing")
+    f = pp.func("pack_into_passes")
+    site = "ethosu/vela/pass_packing.py:pack_into_passes"
+    gens = [g for g in ast.walk(f) if isinstance(g, ast.GeneratorExp) and "cpu_ps.ops[0].outputs" in str(norm(g.generators[0].iter))]
+    if not gens:
+        raise AnalysisError("pack_into_passes: dependency test of the CPU pass move not found")
+    for g in gens:
+        t = str(norm(g.elt))
+        ok = (".ifm2" in t and ".ifm" in t.replace(".ifm2", "")) or ".inputs" in t
+        rep.check(ok, "C13-ah", site, f"`{t[:80]}` covers ifm and ifm2 of the next pass",
+                  "only one operand of the next pass is tested: a CPU pass whose result is the second operand of a later NPU elementwise pass is moved behind its consumer (AssertionError pred_pass.time < ps.time in build_pass_links)")
